@@ -35,6 +35,7 @@ const (
 	c17CloseWindow   = 2500 * time.Millisecond
 	c17CloseGrace    = 200 * time.Millisecond
 	c17StarvedGap    = 250 * time.Millisecond
+	c17CallLimit     = 30 * time.Second // a Set / Close may wait for a connect attempt in progress (10 s at most), never longer
 	c17Parallel      = 8
 )
 
@@ -145,6 +146,7 @@ type c17Peer struct {
 	closeReturned bool
 	closeAt       time.Time
 	closedFlag    atomic.Bool // set together with closeReturned, readable without mu
+	hung          atomic.Bool // a Set or Close call did not return within c17CallLimit
 	finishing     bool
 	unjudged      string
 	fired         map[string]bool
@@ -844,7 +846,23 @@ func (p *c17Peer) doSet(sess bgp.Session, idx int, op c17Op) {
 	}
 	p.mu.Unlock()
 	t0 := time.Now()
-	err := sess.Set(advs...)
+	var err error
+	if p.hung.Load() {
+		return // an earlier call never returned: the session lock is lost for good
+	}
+	doneSet := make(chan struct{})
+	go func() { err = sess.Set(advs...); close(doneSet) }()
+	select {
+	case <-doneSet:
+	case <-time.After(c17CallLimit):
+		p.hung.Store(true)
+		if p.starvedGap() > c17StarvedGap {
+			p.c.Inconclusive(fmt.Sprintf("scenario %d: Set#%d did not return within %s, but the process was starved", p.sc.ID, idx, c17CallLimit))
+		} else {
+			p.violation("set:call-never-returns", fmt.Sprintf("Set#%d did not return within %s (the caller - the speaker's event handler - is blocked for good)", idx, c17CallLimit))
+		}
+		return
+	}
 	dt := time.Since(t0)
 	p.mu.Lock()
 	p.seq++
@@ -1098,7 +1116,24 @@ func vfc17RunScenario(c *vfCase, sc *c17Scenario) {
 		c.Logf("scenario %d: scheduling gap %s before Close", sc.ID, g)
 	}
 	p.canary.Reset()
-	_ = sess.Close()
+	if p.hung.Load() {
+		p.finish()
+		return
+	}
+	doneClose := make(chan struct{})
+	go func() { _ = sess.Close(); close(doneClose) }()
+	select {
+	case <-doneClose:
+	case <-time.After(c17CallLimit):
+		p.hung.Store(true)
+		if p.starvedGap() > c17StarvedGap {
+			c.Inconclusive(fmt.Sprintf("scenario %d: Close did not return within %s, but the process was starved", sc.ID, c17CallLimit))
+		} else {
+			p.violation("close:call-never-returns", fmt.Sprintf("Close() did not return within %s", c17CallLimit))
+		}
+		p.finish()
+		return
+	}
 	now := time.Now()
 	p.mu.Lock()
 	p.closeReturned, p.closeAt = true, now
@@ -1384,7 +1419,7 @@ func vfc17GenConnScripts(r *vfRand, sc *c17Scenario) {
 			case k < 7:
 				cs.Fault, cs.IdleMs = "drop-idle", r.Range(15, 80)
 			case k < 11:
-				cs.Fault, cs.K = "drop-after-msgs", r.Intn(13)
+				cs.Fault, cs.K = "drop-after-msgs", r.Intn(22)
 			case k < 17:
 				cs.Fault, cs.K = "drop-after-bytes", vfPick(r, []int{r.Range(1, 18), 19, r.Range(20, 90), r.Range(20, 90), r.Range(91, 700)})
 			case k < 19:
@@ -1531,6 +1566,26 @@ func vfc17Directed() []*c17Scenario {
 			Ops: []c17Op{set(c17Route{Prefix: "10.7.1.0/24", LocalPref: 100, Comms: []uint32{65000<<16 | 100, 65000<<16 | 300}}),
 				set(c17Route{Prefix: "10.7.1.0/24", LocalPref: 100, Comms: []uint32{65000<<16 | 200, 65000<<16 | 400}}),
 				set(c17Route{Prefix: "10.7.1.0/24", LocalPref: 100, Comms: []uint32{65000<<16 | 100, 65000<<16 | 300}})}},
+		// the peer resets the connection while the speaker is between the announcements of a large set
+		// and the withdrawal that follows at once: a write of either kind may be the one that fails
+		func() *c17Scenario {
+			var big []c17Route
+			for _, u := range c17Universe {
+				big = append(big, c17Route{Prefix: u, LocalPref: 100})
+			}
+			return &c17Scenario{Class: "normal", MyASN: 64512, PeerASN: 64512, PeerAS4: true, HoldS: 90, PeerHoldS: 90,
+				Conns: []c17ConnScript{{OpenStyle: "plain", Fault: "drop-after-msgs", K: 1 + len(big), RST: true}, {OpenStyle: "plain", Fault: "drop-after-msgs", K: len(big), RST: true}, {OpenStyle: "plain"}},
+				Ops:   []c17Op{{Gap: "none", Kind: "directed", Routes: big}, {Gap: "none", Kind: "directed", Routes: big[:2]}, {Gap: "sleep", GapMs: 3, Kind: "directed", Routes: big}, {Gap: "none", Kind: "directed", Routes: big[3:5]}}}
+		}(),
+		func() *c17Scenario {
+			var big []c17Route
+			for _, u := range c17Universe {
+				big = append(big, c17Route{Prefix: u, LocalPref: 200, Comms: []uint32{65000<<16 | 7}})
+			}
+			return &c17Scenario{Class: "normal", MyASN: 64512, PeerASN: 64513, PeerAS4: false, HoldS: 90, PeerHoldS: 90,
+				Conns: []c17ConnScript{{OpenStyle: "plain", Fault: "drop-after-bytes", K: 19 + len(big)*52 - 5, RST: true}, {OpenStyle: "plain", Fault: "drop-after-msgs", K: 2 + len(big), RST: true}, {OpenStyle: "plain"}},
+				Ops:   []c17Op{{Gap: "none", Kind: "directed", Routes: big}, {Gap: "none", Kind: "directed", Routes: nil}, {Gap: "yield", Kind: "directed", Routes: big}, {Gap: "none", Kind: "directed", Routes: big[:1]}}}
+		}(),
 		// the session is bound to a configured source address
 		{Class: "normal", MyASN: 64512, PeerASN: 64513, PeerAS4: true, HoldS: 90, PeerHoldS: 90, SourceAddr: true, Ops: []c17Op{set(routes...), set(routes[0])}},
 		{Class: "normal", MyASN: 64512, PeerASN: 64512, PeerAS4: false, HoldS: 90, PeerHoldS: 30, SourceAddr: true, Ops: []c17Op{set(routes...)}},
